@@ -51,6 +51,9 @@ def check_one(ctx, res, seed, st, samples, distinct):
         if CR.referenced(t, set()) & ov or {d["ident"] for d in reach(by, t)} & unparsable:
             st["skipped_types"] += 1
             continue
+        if any(d.get("no_de") for d in reach(by, t)):
+            st["skipped_types"] += 1     # `skip_deserializing`: serde does not read back what it writes (outside the round-trip fragment)
+            continue
         if t[0] == "named" and res["q"][i]["decl"].startswith("\x00"):
             st["skipped_types"] += 1
             continue
